@@ -197,23 +197,15 @@ def join_with_limit(  # noqa: PLR0911
 
 def error_context(text: str, index: int) -> tuple[str, int, int]:
     """Return a (line, lineno, col) tuple for position `index` in `text`."""
-    if not text:
-        return ("", 1, 0)
+    index = max(index, 0)  # -1 means no position was recorded
+    line_start = text.rfind("\n", 0, index) + 1
+    line_end = text.find("\n", index)
+    if line_end == -1:
+        line_end = len(text)
 
-    lines = text.splitlines(keepends=True)
-    cumulative_length = 0
-    target_line_index = len(lines) - 1
-
-    for i, line in enumerate(lines):
-        cumulative_length += len(line)
-        if index < cumulative_length:
-            target_line_index = i
-            break
-
-    # Line number (1-based)
-    line_number = target_line_index + 1
-    # Column number within the line
-    column_number = index - (cumulative_length - len(lines[target_line_index])) + 1
-    current_line = lines[target_line_index].rstrip()
+    # Line and column numbers are 1-based.
+    line_number = text.count("\n", 0, index) + 1
+    column_number = index - line_start + 1
+    current_line = text[line_start:line_end].rstrip()
 
     return (current_line, line_number, column_number)
